@@ -293,6 +293,7 @@ Lemma settled_store : forall m w k o, settled m = true -> sm_get (get_store m w)
 Proof.
   intros m w k o Hs Hg. unfold settled in Hs. apply andb_true_iff in Hs. destruct Hs as [Hc Hh].
   destruct (get_occupied _ _ _ Hg) as (sl & Hsl & _ & Hv).
+  rewrite slot_at_eq in Hsl.
   assert (Hin : In sl (slots (get_store m w))) by (eapply nth_error_In; exact Hsl).
   assert (Hall : forallb slot_settled (slots (get_store m w)) = true) by (destruct w; assumption).
   rewrite forallb_forall in Hall. specialize (Hall _ Hin). unfold slot_settled in Hall. rewrite Hv in Hall.
@@ -318,7 +319,7 @@ Theorem no_uaf_balanced : forall tr, balanced tr = true ->
 Proof.
   intros tr Hb. unfold balanced, balanced_from in Hb.
   destruct (mrun mach_new tr) as [m|] eqn:Hrun; [|discriminate].
-  repeat split.
+  split; [|split].
   - intros tr1 e tr2 -> Ht. rewrite mrun_app in Hrun.
     destruct (mrun mach_new tr1) as [m1|] eqn:H1; [|discriminate]. cbn [mrun] in Hrun.
     destruct (mstep m1 e) as [m2|] eqn:H2; [|discriminate].
